@@ -60,6 +60,8 @@ def rule_doc(kind: str, pos: int) -> dict:
         d["detection"]["sel"] = [True]
     elif kind == "failC":
         d["detection"]["condition"] = "sel and missing"
+    elif kind == "failU":  # a regular expression flag on a backend without flag support
+        d["detection"]["sel"] = {"fieldA|re|i": "abc"}
     elif kind == "failNPH":  # fails while a value BELOW A NOT is converted
         d["detection"]["flt"] = {"fieldB|expand": "%undefined%"}
         d["detection"]["condition"] = "sel and not flt"
@@ -88,7 +90,7 @@ def _convert(docs, collect, noteq=False):
     from sigma.backends.test import TextQueryTestBackend as Base
 
     # a class of its own for every conversion: what a conversion leaves behind on its backend CLASS stays with it
-    TextQueryTestBackend = type("C08Backend", (Base,), dict(NOTEQ) if noteq else {})
+    TextQueryTestBackend = type("C08Backend", (Base,), dict(NOTEQ if noteq else {}, re_flag_prefix=False, re_flags={}))
     from sigma.processing.pipeline import ProcessingPipeline
     from sigma.exceptions import SigmaError
 
